@@ -112,7 +112,7 @@ impl<'a> PrettyPrinter<'a> {
             && check_import_name_duplication(&import_items_nodes)
         {
             // Sort import items by their text representation.
-            import_items_nodes.sort_by_key(|&node| node.clone().into_text());
+            import_items_nodes.sort_by_key(|&node| import_item_sort_key(node));
         }
         // Note that `ImportItem` does not implement `AstNode`.
         ListStylist::new(self)
@@ -169,6 +169,22 @@ impl<'a> PrettyPrinter<'a> {
             }
         })
     }
+}
+
+/// The text of an import item as it is printed, so that the order of the items
+/// does not depend on the spacing in the source.
+fn import_item_sort_key(node: &SyntaxNode) -> String {
+    fn collect(node: &SyntaxNode, key: &mut String) {
+        match node.kind() {
+            SyntaxKind::Space => {}
+            SyntaxKind::As => key.push_str(" as "),
+            _ if node.children().len() == 0 => key.push_str(node.text()),
+            _ => node.children().for_each(|child| collect(child, key)),
+        }
+    }
+    let mut key = String::new();
+    collect(node, &mut key);
+    key
 }
 
 /// Whether the node or any of its descendants is a comment.
